@@ -918,7 +918,7 @@ pub fn run_worker<P: Prop>(p: &P, tier: Tier, start: u64, stride: u64, runs: u64
 			if cur != last {
 				last = cur;
 				since = Instant::now();
-			} else if since.elapsed().as_secs() >= 10 {
+			} else if since.elapsed().as_secs() >= 60 {
 				eprintln!("WORKER-HANG inflight={inflight_path}");
 				std::process::exit(3);
 			}
